@@ -124,7 +124,7 @@ def heap_closed(h: H, only=None):
     for a, t in h.schema.attrs.items():
         if only is not None and ('f_' + a) not in only:
             continue
-        if t.sort == Addr and not t.opt:
+        if t.kind in ('obj', 'list', 'dict', 'set') and not t.opt:
             fx = h.f(a, x)
             out.append(z3.ForAll([x], z3.Implies(z3.And(x >= 0, x < h.alloc), z3.And(fx >= 0, fx < h.alloc)), patterns=[fx]))
         elif t.opt and t.kind in ('obj', 'list', 'dict', 'set'):
